@@ -1,0 +1,322 @@
+//! Verification hooks (feature `verif-hooks`, off by default).
+//!
+//! Layout-identical wrappers around the core atomics which report every access
+//! to a process-global callback *before* (a scheduling / delay / crash point)
+//! and *after* (an event carrying address, values and memory orderings).
+//! With no callback installed every access costs one relaxed load.
+#![allow(missing_docs)]
+
+use core::panic::Location;
+use core::sync::atomic::{self as cs, Ordering};
+
+/// Kind of atomic access.
+#[derive(Debug, Clone, Copy, PartialEq, Eq)]
+pub enum Access {
+  Load,
+  Store,
+  Cas,
+  CasWeak,
+  FetchAdd,
+  FetchSub,
+}
+
+/// What the `before` callback wants the access to do.
+#[derive(Debug, Clone, Copy, PartialEq, Eq)]
+pub enum Directive {
+  /// Perform the access.
+  Proceed,
+  /// Only honoured by `compare_exchange_weak`: fail spuriously (legal outcome).
+  SpuriousFail,
+}
+
+/// An atomic access, reported after it was performed.
+#[derive(Debug, Clone, Copy)]
+pub struct Event {
+  pub access: Access,
+  /// Address of the atomic.
+  pub addr: usize,
+  /// Width in bytes.
+  pub width: u8,
+  /// Value found in memory (for a store: unknown, reported as 0).
+  pub read: u64,
+  /// Value written (store, successful CAS, RMW result) — otherwise the operand.
+  pub written: u64,
+  /// Expected value of a CAS.
+  pub expected: u64,
+  /// Whether memory was written.
+  pub wrote: bool,
+  /// Ordering (success ordering for CAS).
+  pub order: Ordering,
+  /// Failure ordering for CAS (else same as `order`).
+  pub fail_order: Ordering,
+  pub file: &'static str,
+  pub line: u32,
+}
+
+/// An atomic access about to be performed.
+#[derive(Debug, Clone, Copy)]
+pub struct Pending {
+  pub access: Access,
+  pub addr: usize,
+  pub width: u8,
+  pub file: &'static str,
+  pub line: u32,
+}
+
+pub type BeforeFn = fn(&Pending) -> Directive;
+pub type AfterFn = fn(&Event);
+pub type ZeroedFn = fn(usize, usize);
+
+static BEFORE: cs::AtomicUsize = cs::AtomicUsize::new(0);
+static AFTER: cs::AtomicUsize = cs::AtomicUsize::new(0);
+static ZEROED: cs::AtomicUsize = cs::AtomicUsize::new(0);
+
+/// Installs the callbacks (process global).
+pub fn install(before: Option<BeforeFn>, after: Option<AfterFn>, zeroed: Option<ZeroedFn>) {
+  BEFORE.store(before.map_or(0, |f| f as usize), Ordering::SeqCst);
+  AFTER.store(after.map_or(0, |f| f as usize), Ordering::SeqCst);
+  ZEROED.store(zeroed.map_or(0, |f| f as usize), Ordering::SeqCst);
+}
+
+/// Removes the callbacks.
+pub fn uninstall() {
+  install(None, None, None);
+}
+
+#[inline]
+fn before(access: Access, addr: usize, width: u8, loc: &'static Location<'static>) -> Directive {
+  let f = BEFORE.load(Ordering::Relaxed);
+  if f == 0 {
+    return Directive::Proceed;
+  }
+  // Safety: only ever stored from a `BeforeFn`.
+  let f: BeforeFn = unsafe { core::mem::transmute::<usize, BeforeFn>(f) };
+  f(&Pending {
+    access,
+    addr,
+    width,
+    file: loc.file(),
+    line: loc.line(),
+  })
+}
+
+#[inline]
+fn after(ev: impl FnOnce() -> Event) {
+  let f = AFTER.load(Ordering::Relaxed);
+  if f == 0 {
+    return;
+  }
+  // Safety: only ever stored from an `AfterFn`.
+  let f: AfterFn = unsafe { core::mem::transmute::<usize, AfterFn>(f) };
+  f(&ev());
+}
+
+/// Reports that the arena zeroed `len` bytes at `addr` with plain writes.
+#[inline]
+pub fn zeroed(addr: usize, len: usize) {
+  let f = ZEROED.load(Ordering::Relaxed);
+  if f == 0 {
+    return;
+  }
+  // Safety: only ever stored from a `ZeroedFn`.
+  let f: ZeroedFn = unsafe { core::mem::transmute::<usize, ZeroedFn>(f) };
+  f(addr, len);
+}
+
+macro_rules! wrapper {
+  ($name:ident, $inner:ident, $ty:ident, $width:literal) => {
+    #[repr(transparent)]
+    pub struct $name(cs::$inner);
+
+    impl core::fmt::Debug for $name {
+      fn fmt(&self, f: &mut core::fmt::Formatter<'_>) -> core::fmt::Result {
+        self.0.fmt(f)
+      }
+    }
+
+    impl $name {
+      #[inline]
+      pub const fn new(v: $ty) -> Self {
+        Self(cs::$inner::new(v))
+      }
+
+      /// The wrapped atomic: hook-free access for snapshot code.
+      #[inline]
+      pub fn raw(&self) -> &cs::$inner {
+        &self.0
+      }
+
+      #[inline]
+      fn addr(&self) -> usize {
+        &self.0 as *const _ as usize
+      }
+
+      #[inline]
+      #[track_caller]
+      pub fn load(&self, order: Ordering) -> $ty {
+        let loc = Location::caller();
+        before(Access::Load, self.addr(), $width, loc);
+        let v = self.0.load(order);
+        after(|| Event {
+          access: Access::Load,
+          addr: self.addr(),
+          width: $width,
+          read: v as u64,
+          written: 0,
+          expected: 0,
+          wrote: false,
+          order,
+          fail_order: order,
+          file: loc.file(),
+          line: loc.line(),
+        });
+        v
+      }
+
+      #[inline]
+      #[track_caller]
+      pub fn store(&self, val: $ty, order: Ordering) {
+        let loc = Location::caller();
+        before(Access::Store, self.addr(), $width, loc);
+        self.0.store(val, order);
+        after(|| Event {
+          access: Access::Store,
+          addr: self.addr(),
+          width: $width,
+          read: 0,
+          written: val as u64,
+          expected: 0,
+          wrote: true,
+          order,
+          fail_order: order,
+          file: loc.file(),
+          line: loc.line(),
+        });
+      }
+
+      #[inline]
+      #[track_caller]
+      pub fn compare_exchange(
+        &self,
+        current: $ty,
+        new: $ty,
+        success: Ordering,
+        failure: Ordering,
+      ) -> Result<$ty, $ty> {
+        let loc = Location::caller();
+        before(Access::Cas, self.addr(), $width, loc);
+        let r = self.0.compare_exchange(current, new, success, failure);
+        after(|| Event {
+          access: Access::Cas,
+          addr: self.addr(),
+          width: $width,
+          read: match r {
+            Ok(v) | Err(v) => v as u64,
+          },
+          written: new as u64,
+          expected: current as u64,
+          wrote: r.is_ok(),
+          order: success,
+          fail_order: failure,
+          file: loc.file(),
+          line: loc.line(),
+        });
+        r
+      }
+
+      #[inline]
+      #[track_caller]
+      pub fn compare_exchange_weak(
+        &self,
+        current: $ty,
+        new: $ty,
+        success: Ordering,
+        failure: Ordering,
+      ) -> Result<$ty, $ty> {
+        let loc = Location::caller();
+        let d = before(Access::CasWeak, self.addr(), $width, loc);
+        let r = if d == Directive::SpuriousFail {
+          Err(self.0.load(failure))
+        } else {
+          self.0.compare_exchange_weak(current, new, success, failure)
+        };
+        after(|| Event {
+          access: Access::CasWeak,
+          addr: self.addr(),
+          width: $width,
+          read: match r {
+            Ok(v) | Err(v) => v as u64,
+          },
+          written: new as u64,
+          expected: current as u64,
+          wrote: r.is_ok(),
+          order: success,
+          fail_order: failure,
+          file: loc.file(),
+          line: loc.line(),
+        });
+        r
+      }
+
+      #[inline]
+      #[track_caller]
+      pub fn fetch_add(&self, val: $ty, order: Ordering) -> $ty {
+        let loc = Location::caller();
+        before(Access::FetchAdd, self.addr(), $width, loc);
+        let v = self.0.fetch_add(val, order);
+        after(|| Event {
+          access: Access::FetchAdd,
+          addr: self.addr(),
+          width: $width,
+          read: v as u64,
+          written: v.wrapping_add(val) as u64,
+          expected: 0,
+          wrote: true,
+          order,
+          fail_order: order,
+          file: loc.file(),
+          line: loc.line(),
+        });
+        v
+      }
+
+      #[inline]
+      #[track_caller]
+      pub fn fetch_sub(&self, val: $ty, order: Ordering) -> $ty {
+        let loc = Location::caller();
+        before(Access::FetchSub, self.addr(), $width, loc);
+        let v = self.0.fetch_sub(val, order);
+        after(|| Event {
+          access: Access::FetchSub,
+          addr: self.addr(),
+          width: $width,
+          read: v as u64,
+          written: v.wrapping_sub(val) as u64,
+          expected: 0,
+          wrote: true,
+          order,
+          fail_order: order,
+          file: loc.file(),
+          line: loc.line(),
+        });
+        v
+      }
+    }
+  };
+}
+
+wrapper!(AtomicU32, AtomicU32, u32, 4);
+wrapper!(AtomicU64, AtomicU64, u64, 8);
+wrapper!(AtomicUsize, AtomicUsize, usize, 8);
+
+/// Snapshot of the free list taken by a bounded, hook-free walk.
+#[derive(Debug, Clone, PartialEq, Eq)]
+pub struct FreelistSnapshot {
+  /// Raw sentinel word (`size << 32 | next`).
+  pub sentinel: u64,
+  /// `(node_offset, data_size, next)` of every node reached, in list order.
+  pub nodes: std::vec::Vec<(u32, u32, u32)>,
+  /// `false` if the walk stopped because the budget was exhausted or a link
+  /// pointed outside the arena (cycle or runaway).
+  pub complete: bool,
+}
